@@ -35,9 +35,12 @@ Definition validate_string (s : bytes) : bytes :=
 Definition fmt3 (w d : nat) (v : dec3) : bytes :=
   let '(x, y, z) := v in fmt_f w d x ++ fmt_f w d y ++ fmt_f w d z.
 
+(* len(atomlist) == 10 *)
+Definition has_vel (r : grec) : bool := match g_vel r with Some _ => true | None => false end.
+
 (* GroFile.parse_atomlist(atomlist, format_dict) with format_dict = {position:(w,d), velocities:fv} *)
 Definition parse_atomlist (w d : nat) (fv : bool) (r : grec) : res bytes :=
-  let velocities := match g_vel r with Some _ => true | None => false end in
+  let velocities := has_vel r in
   if negb (Bool.eqb velocities fv) then Err EIO else
   Ok (lpad 5 (fmt_Z (g_resnum r mod WRAP)) ++
       rpad 5 (validate_string (g_resname r)) ++
